@@ -257,9 +257,11 @@ def check(its, site, ctx, where):
     ctx.ev()
     ctx.out(f"site_{site}")
     case = dict(kind="c19", site=site, lines=[it.text("ios") for it in its], **where)
+    # names or numbers in the rendered text (alternating): a split must not depend on the spelling
+    pnr = bool((where.get("s", 0) + where.get("d", 0) + where.get("pos", 0)) % 2)
     try:
         if site == "AceGroup":
-            obj = AceGroup("\n".join(it.text("ios") for it in its), platform="ios", port_nr=True)
+            obj = AceGroup("\n".join(it.text("ios") for it in its), platform="ios", port_nr=pnr)
         elif site.startswith("Acl_mixed"):
             # explicit AceGroup item next to plain items (not produced by group_by)
             if len(its) < 2:
@@ -269,14 +271,14 @@ def check(its, site, ctx, where):
             texts = [it.text("ios") for it in its]
             half = (len(its) + 1) // 2
             if site == "Acl_mixed_head":
-                grp = AceGroup(items=texts[:half], platform="ios", port_nr=True)
-                obj = Acl(name="A", platform="ios", port_nr=True, items=[grp, *texts[half:]])
+                grp = AceGroup(items=texts[:half], platform="ios", port_nr=pnr)
+                obj = Acl(name="A", platform="ios", port_nr=pnr, items=[grp, *texts[half:]])
             else:
-                grp = AceGroup(items=texts[half:], platform="ios", port_nr=True)
-                obj = Acl(name="A", platform="ios", port_nr=True, items=[*texts[:half], grp])
+                grp = AceGroup(items=texts[half:], platform="ios", port_nr=pnr)
+                obj = Acl(name="A", platform="ios", port_nr=pnr, items=[*texts[:half], grp])
         else:
             obj = PR.build_acl(its, "ios", group_by="= " if site == "Acl_grouped" else "",
-                               port_nr=True)
+                               port_nr=pnr)
     except Exception as ex:  # noqa
         ctx.viol("harness:build", case, repr(ex), "built")
         return
